@@ -93,6 +93,11 @@ pub struct ShutdownScript {
     /// the shutdown call has returned, i.e. when the server is already gone
     #[serde(default)]
     pub late_waiter: Option<u64>,
+    /// the caller gives up: the future returned by `shutdown()` is dropped this many ns after the call
+    /// unless it has resolved by then (`tokio::time::timeout(d, handle.shutdown(..))`, a `select!`
+    /// arm, a cancelled task); the drain must go on regardless
+    #[serde(default)]
+    pub cancel_after_ns: Option<u64>,
 }
 
 #[derive(Serialize, Deserialize, Clone, Debug, PartialEq)]
@@ -168,6 +173,8 @@ struct Run {
     unexpected_panics: Vec<String>,
     /// connection id → seq at which accept() handed it out
     os_accepted: BTreeMap<usize, u64>,
+    /// instant at which the caller dropped the unresolved shutdown future
+    caller_gone: Option<u64>,
 }
 
 thread_local! {
@@ -658,8 +665,17 @@ async fn driver(script: Script) {
             let s = slog!("shutdown({:?}) called", sd.mode);
             let t = sched::now_ns();
             run_mut(|r| r.t_call = Some((s, t)));
-            let r = tokio::time::timeout(Duration::from_secs(3000), handle.shutdown(to_mode(&sd.mode))).await;
-            if r.is_ok() {
+            let patience = match sd.cancel_after_ns {
+                Some(ns) => Duration::from_nanos(ns),
+                None => Duration::from_secs(3000),
+            };
+            let r = tokio::time::timeout(patience, handle.shutdown(to_mode(&sd.mode))).await;
+            if r.is_err() && sd.cancel_after_ns.is_some() {
+                slog!("the caller dropped the shutdown future ({} ns after the call)", patience.as_nanos());
+                let t = sched::now_ns();
+                run_mut(|r| r.caller_gone = Some(t));
+                sched::count("fault_caller_dropped_the_shutdown_future", 1);
+            } else if r.is_ok() {
                 let s = slog!("shutdown resolved");
                 let t = sched::now_ns();
                 run_mut(|r| r.t_ret = Some((s, t)));
@@ -760,6 +776,28 @@ fn evaluate(script: &Script, run: &Run, out: &mut RunOut) {
     let second_called_first = matches!(run.second_call, Some((s, _)) if s < call_seq);
     // 3/4. bounded resolution
     match run.t_ret {
+        None if run.caller_gone.is_some() => {
+            // The caller went away before the shutdown had completed. Nobody holds the future any
+            // more, but the server must behave as if somebody did: the drain goes on (checked below
+            // for every class-A request) and awaiting a clone of the handle resolves when the server
+            // has really stopped — not before a handler that was running at the call has finished
+            // (unless the timeout has elapsed), not after the timeout.
+            if let (Some(to), true) = (graceful_timeout_ns, sd.waiter && !ambiguous && !second_called_first) {
+                match run.waiter_ret {
+                    None => out.violations.push(viol("await-handle-resolves", "waiter never resolved (caller gone)".into(), "the caller dropped the shutdown future; awaiting a clone of the handle never resolved".into())),
+                    Some((_, t)) => {
+                        out.count("probe_waiter_resolved_after_the_caller_had_gone", 1);
+                        if t > call_ns.saturating_add(to).saturating_add(SLACK_NS) {
+                            out.violations.push(viol("bounded-resolution", "server outlived the timeout (caller gone)".into(), format!("graceful shutdown with timeout {} ms: the handle resolved {} ns after the call", to / 1_000_000, t - call_ns)));
+                        }
+                        let still_running = run.reqs.values().any(|r| matches!(r.handler_start, Some((s, _)) if s < call_seq) && !r.panicked && r.handler_end.map(|(_, e)| e > t + SLACK_NS).unwrap_or(false));
+                        if still_running && t + SLACK_NS < call_ns.saturating_add(to) {
+                            out.violations.push(viol("await-handle-resolves", "waiter early (caller gone)".into(), format!("the caller dropped the shutdown future; awaiting the handle resolved {} ns after the call while a handler that was running at the call was still running (it logged its end later) and the timeout had not elapsed", t - call_ns)));
+                        }
+                    }
+                }
+            }
+        }
         None => {
             out.violations.push(viol("shutdown-resolves", format!("mode={}", mode_tag(&sd.mode)), "the shutdown future did not resolve".into()));
         }
@@ -1176,6 +1214,7 @@ impl Sim for SrvSim {
                 second: if rng.chance(1, 6) { Some((rng.below(40_000), gen_mode(rng))) } else { None },
                 waiter: rng.chance(1, 3),
                 late_waiter: None,
+                cancel_after_ns: None,
             })
         };
         let timeout_ms = match &shutdown {
@@ -1303,7 +1342,7 @@ impl Sim for SrvSim {
             for j in 0..rng.usize(2, 4) {
                 conns.push(ConnScript { when: When::At { ns: t_more + j as u64 * 5_000 }, kind: ConnKind::Full, handler_ms: rng.range(0, 2), fault: ConnFault::None, cap_in: 65_536, cap_out: 65_536, listener: 0 });
             }
-            let shutdown = Some(ShutdownScript { at_ns: t_more + 3_000_000, mode: Mode::Graceful { timeout_ms: 60_000 }, second: None, waiter: false, late_waiter: None });
+            let shutdown = Some(ShutdownScript { at_ns: t_more + 3_000_000, mode: Mode::Graceful { timeout_ms: 60_000 }, second: None, waiter: false, late_waiter: None, cancel_after_ns: None });
             return Script { workers: 1, listeners: 1, conns, shutdown, weights: Vec::new(), preempt_den: 1000, net_preempt: false, accept_errors: None };
         }
         // ... and one run in fifty is a QUEUED BURST: every worker is stuck in a blocking handler while
@@ -1319,8 +1358,55 @@ impl Sim for SrvSim {
             for _ in 0..q {
                 conns.push(ConnScript { when: When::At { ns: 1_000_000 + rng.below(1_000_000) }, kind: ConnKind::Full, handler_ms: rng.range(0, 2), fault: ConnFault::None, cap_in: 65_536, cap_out: 65_536, listener: 0 });
             }
-            let shutdown = Some(ShutdownScript { at_ns: 5_000_000 + rng.below(5_000_000), mode: Mode::Graceful { timeout_ms: *rng.pick(&[5_000, 10_000, 60_000]) }, second: None, waiter: rng.chance(1, 3), late_waiter: None });
+            let shutdown = Some(ShutdownScript { at_ns: 5_000_000 + rng.below(5_000_000), mode: Mode::Graceful { timeout_ms: *rng.pick(&[5_000, 10_000, 60_000]) }, second: None, waiter: rng.chance(1, 3), late_waiter: None, cancel_after_ns: None });
             return Script { workers, listeners: 1, conns, shutdown, weights: Vec::new(), preempt_den: *rng.pick(&[4, 8, 1000]), net_preempt: false, accept_errors: None };
+        }
+        // ... and one run in a hundred BLOCKS TWO OR THREE WORKERS for longer than the timeout: dispatch
+        // only moves on to the next worker when an inbox is full, so the first blocking request is
+        // followed by 15 fillers (they fill the blocked worker's inbox) and the next blocking request
+        // lands on the next worker; the graceful timeout must bound the whole shutdown, not each worker
+        if rng.chance(1, 100) {
+            let workers = rng.usize(2, 3);
+            let timeout_ms = *rng.pick(&[50u64, 200, 600]);
+            let hold = timeout_ms * (workers as u64 + 1) + rng.range(10, 50);
+            let mut conns: Vec<ConnScript> = Vec::new();
+            let mut t = 0u64;
+            for _ in 0..workers {
+                conns.push(ConnScript { when: When::At { ns: t }, kind: ConnKind::Full, handler_ms: hold, fault: ConnFault::BlockingHandler, cap_in: 65_536, cap_out: 65_536, listener: 0 });
+                t += 1_000_000;
+                for _ in 0..15 {
+                    conns.push(ConnScript { when: When::At { ns: t + rng.below(200_000) }, kind: ConnKind::Full, handler_ms: 0, fault: ConnFault::None, cap_in: 65_536, cap_out: 65_536, listener: 0 });
+                }
+                t += 1_000_000;
+            }
+            let shutdown = Some(ShutdownScript { at_ns: t + 2_000_000 + rng.below(1_000_000), mode: Mode::Graceful { timeout_ms }, second: None, waiter: rng.chance(1, 2), late_waiter: None, cancel_after_ns: None });
+            return Script { workers, listeners: 1, conns, shutdown, weights: Vec::new(), preempt_den: *rng.pick(&[8, 1000]), net_preempt: false, accept_errors: None };
+        }
+        // ... and one run in four hundred sends ONE blocked worker far more complete requests than an
+        // inbox holds today (70-130): whatever is accepted into the inbox before the call had been
+        // received before the call and is owed an answer, however large the inbox is
+        if rng.chance(1, 400) {
+            let hold = rng.range(20, 60);
+            let mut conns = vec![ConnScript { when: When::At { ns: 0 }, kind: ConnKind::Full, handler_ms: hold, fault: ConnFault::BlockingHandler, cap_in: 65_536, cap_out: 65_536, listener: 0 }];
+            for _ in 0..rng.usize(70, 130) {
+                conns.push(ConnScript { when: When::At { ns: 1_000_000 + rng.below(2_000_000) }, kind: ConnKind::Full, handler_ms: rng.range(0, 2), fault: ConnFault::None, cap_in: 65_536, cap_out: 65_536, listener: 0 });
+            }
+            let shutdown = Some(ShutdownScript { at_ns: 6_000_000 + rng.below(5_000_000), mode: Mode::Graceful { timeout_ms: *rng.pick(&[10_000, 60_000]) }, second: None, waiter: false, late_waiter: None, cancel_after_ns: None });
+            return Script { workers: rng.usize(1, 2), listeners: 1, conns, shutdown, weights: Vec::new(), preempt_den: 1000, net_preempt: false, accept_errors: None };
+        }
+        // ... and one graceful shutdown in eight is abandoned by its caller while a request is mid-handler
+        if let Some(sd) = sc.shutdown.as_mut() {
+            if let Mode::Graceful { timeout_ms } = sd.mode {
+                if timeout_ms >= 200 && timeout_ms != u64::MAX && rng.chance(1, 8) {
+                    let at_ms = sd.at_ns / 1_000_000 + 1;
+                    let h = rng.range(30, (timeout_ms - 20).min(400));
+                    sd.cancel_after_ns = Some(*rng.pick(&[0u64, 1_000, 1_000_000, 10_000_000, 25_000_000]));
+                    sd.waiter = true;
+                    sd.second = None;
+                    sd.late_waiter = None;
+                    sc.conns.push(ConnScript { when: When::At { ns: 0 }, kind: ConnKind::Full, handler_ms: at_ms + h, fault: ConnFault::None, cap_in: 65_536, cap_out: 65_536, listener: 0 });
+                }
+            }
         }
         sc
     }
